@@ -1,6 +1,8 @@
 import Fdo.Proto.Handover
 import Fdo.Proto.ServerProofs
 import Fdo.Facts
+import Fdo.Store
+import Fdo.StoreProofs
 /-
 C03 — ownership handover leaves device credential and stored voucher in agreement.
 -/
@@ -98,5 +100,57 @@ theorem owner_store_changes_only_at_accepted_done (v : List Nat) (reuse : Bool) 
   | rejected _ _ _ _ _ _ _ _ _ _ => exact absurd rfl hne
   | noSession _ _ _ _ _ => exact absurd rfl hne
 
+
+/-! ### the SQLite owner store: a voucher replacement interrupted between its two statements -/
+
+open Fdo.Store in
+/-- **A replacement that does not succeed leaves the voucher store as it was, wherever the request's
+context ends** (`DB.ReplaceVoucher` = INSERT the replacement, DELETE the old voucher, with a best-effort
+removal of the replacement under a context of its own when the DELETE fails): for every cut point,
+either the call reports success and the store holds the replacement in place of the old voucher, or it
+reports an error and every voucher lookup answers as before. -/
+theorem replace_interrupted_leaves_store (s : Store) (g g' : Guid) (ext : Bool) (v : Bytes) (c : Cut) :
+    let r := replaceVoucherCut s g g' ext v c
+    (r.2 = .ok → r.1.vouchers g' = some v ∧ r.1.vouchers g = none) ∧
+    (r.2 ≠ .ok → ∀ k, r.1.vouchers k = s.vouchers k) := by
+  cases c with
+  | none =>
+    simp only [replaceVoucherCut]
+    have hst := Fdo.Store.replaceVoucher_state s g g' ext v
+    have hiff := Fdo.Store.replaceVoucher_ok_iff s g g' ext v
+    constructor
+    · intro hok
+      rw [hst, if_pos hok]
+      have hne := (hiff.mp hok).2.1
+      simp only
+      refine ⟨?_, by simp⟩
+      rw [upd_other _ _ _ _ (fun h => hne h.symm)]; simp
+    · intro hne k
+      rw [hst, if_neg hne]
+  | beforeInsert => simp [replaceVoucherCut]
+  | afterInsert =>
+    simp only [replaceVoucherCut]
+    split
+    · simp
+    · rename_i hc
+      simp only [not_or] at hc
+      refine ⟨by simp, ?_⟩
+      intro _ k
+      simp only
+      by_cases hk : k = g'
+      · subst hk
+        have : s.vouchers k = none := by
+          cases h : s.vouchers k with
+          | none => rfl
+          | some x => exact absurd (by simp [h]) hc.2.2
+        simp [this]
+      · rw [upd_other _ _ _ _ hk, upd_other _ _ _ _ hk]
+
+open Fdo.Store in
+/-- the behaviour a lost roll-back would have (seed C03-9): an error, and a second voucher in the store -/
+theorem replace_without_rollback_leaves_orphan :
+    let s : Store := { Store.empty with vouchers := upd Store.empty.vouchers [1] (some [7]) }
+    let r := replaceVoucherCutNoRollback s [1] [2] false [8] .afterInsert
+    r.2 = .error ∧ r.1.vouchers [2] = some [8] ∧ r.1.vouchers [1] = some [7] := by decide
 
 end Fdo.Props.C03
